@@ -31,7 +31,9 @@ var (
 	eventHashPrefix    = []byte{13} // store key prefix for events by event hash (concept just used for indexing)
 	stateChangePrefix  = []byte{14} // state keys written at a particular committed version
 	// create indexer cache
-	blockCache, _ = lru.New[uint64, *lib.BlockResult](64)
+	// the cache is keyed by the block's hash key: an entry can only be reached through a height -> hash record
+	// that the reader's own store view contains, so a view never observes a block it has not committed
+	blockCache, _ = lru.New[string, *lib.BlockResult](64)
 	//qcCache, _ = lru.New[uint64, *lib.QuorumCertificate](4) TODO add back
 )
 
@@ -110,7 +112,7 @@ func (t *Indexer) IndexBlock(b *lib.BlockResult) lib.ErrorI {
 	}
 	// set meta stats for the block
 	b.Meta = &lib.BlockResultMeta{Size: uint64(len(resultBz))}
-	blockCache.Add(b.BlockHeader.Height, b)
+	blockCache.Add(string(t.blockHashKey(b.BlockHeader.Hash)), b)
 	// get bytes of block header
 	bz, err := lib.Marshal(b.BlockHeader)
 	if err != nil {
@@ -148,8 +150,6 @@ func (t *Indexer) IndexBlock(b *lib.BlockResult) lib.ErrorI {
 
 // DeleteBlockForHeight() deletes the block & transaction data for a certain height
 func (t *Indexer) DeleteBlockForHeight(height uint64) lib.ErrorI {
-	// remove from cache
-	blockCache.Remove(height)
 	// get the height key
 	heightKey := t.blockHeightKey(height)
 	// get the hash key (was indexed by height key)
@@ -157,6 +157,8 @@ func (t *Indexer) DeleteBlockForHeight(height uint64) lib.ErrorI {
 	if err != nil {
 		return err
 	}
+	// remove from cache
+	blockCache.Remove(string(hashKey))
 	// delete the reference to the hash key
 	if err = t.db.Delete(heightKey); err != nil {
 		return err
@@ -176,14 +178,18 @@ func (t *Indexer) GetBlockByHash(hash []byte) (*lib.BlockResult, lib.ErrorI) {
 
 // GetBlockByHeight() returns the block result by height key
 func (t *Indexer) GetBlockByHeight(height uint64) (*lib.BlockResult, lib.ErrorI) {
-	// check cache
-	if got, found := blockCache.Get(height); found {
-		return got, nil
-	}
-	// height key points to hash key
+	// height key points to hash key (read through this store's own view)
 	hashKey, err := t.db.Get(t.blockHeightKey(height))
 	if err != nil {
 		return nil, err
+	}
+	// no block at that height in this view: nothing to cache
+	if hashKey == nil {
+		return t.getBlock(hashKey, true)
+	}
+	// check cache
+	if got, found := blockCache.Get(string(hashKey)); found {
+		return got, nil
 	}
 	// get block from hash key
 	block, err := t.getBlock(hashKey, true)
@@ -191,29 +197,25 @@ func (t *Indexer) GetBlockByHeight(height uint64) (*lib.BlockResult, lib.ErrorI)
 		return nil, err
 	}
 	// populate cache on read so historical blocks are warm after a restart
-	blockCache.Add(height, block)
+	blockCache.Add(string(hashKey), block)
 	return block, nil
 }
 
 // GetBlockHeaderByHeight() returns the block result without transactions
 func (t *Indexer) GetBlockHeaderByHeight(height uint64) (*lib.BlockResult, lib.ErrorI) {
-	// check cache (full block result may be cached from GetBlockByHeight or IndexBlock)
-	if got, found := blockCache.Get(height); found {
-		return got, nil
-	}
-	// height key points to hash key
+	// height key points to hash key (read through this store's own view)
 	hashKey, err := t.db.Get(t.blockHeightKey(height))
 	if err != nil {
 		return nil, err
 	}
-	// get block from hash key
-	block, err := t.getBlock(hashKey, false)
-	if err != nil {
-		return nil, err
+	// check cache (full block result may be cached from GetBlockByHeight or IndexBlock)
+	if hashKey != nil {
+		if got, found := blockCache.Get(string(hashKey)); found {
+			return got, nil
+		}
 	}
-	// populate cache on read so historical blocks are warm after a restart
-	blockCache.Add(height, block)
-	return block, nil
+	// get block from hash key; a header-only result is not cached: the cache holds full blocks only
+	return t.getBlock(hashKey, false)
 }
 
 // GetBlocks() returns a page of blocks based on the page parameters
@@ -343,14 +345,16 @@ func blockResultSize(block *lib.BlockResult) (uint64, lib.ErrorI) {
 
 // getBlockForPage() returns the block at the height
 func (t *Indexer) getBlockForPage(height uint64, transactions bool) (*lib.BlockResult, lib.ErrorI) {
-	// use the cached block result if it's already loaded
-	if got, found := blockCache.Get(height); found {
-		return got, nil
-	}
-	// height key points to hash key
+	// height key points to hash key (read through this store's own view)
 	hashKey, err := t.db.Get(t.blockHeightKey(height))
 	if err != nil {
 		return nil, err
+	}
+	// use the cached block result if it's already loaded
+	if hashKey != nil {
+		if got, found := blockCache.Get(string(hashKey)); found {
+			return got, nil
+		}
 	}
 	// get the block from the hash key
 	return t.getBlock(hashKey, transactions)
